@@ -155,8 +155,16 @@ def run_case(rng, tier, case):
                 cf = gen.pick(rng, COARSER[g['freq']])
                 ws, we, kind = gen.gen_window(rng, g, kinds=['none', 'none', 'inside', 'straddle_start', 'straddle_end'])
                 desc['coarse'] = [cf, ws, we]
+                cs_in = None if ws is None else pd.Timestamp(ws); ce_in = None if we is None else pd.Timestamp(we)
+                if g['tz'] is not None and rng.random() < 0.35:
+                    # the same instants zone-aware: in the grid's zone, quoted in another zone, or with a fixed offset (datetime.fromisoformat('...+01:00'))
+                    oz = gen.pick(rng, [g['tz'], 'UTC', 'Asia/Kolkata', 'America/New_York', 'offset'])
+                    conv = (lambda t: t.tz_localize(g['tz']).tz_convert(oz)) if oz != 'offset' else (lambda t: __import__('datetime').datetime.fromisoformat(t.tz_localize(g['tz']).isoformat()))
+                    cs_in = None if cs_in is None else conv(cs_in); ce_in = None if ce_in is None else conv(ce_in)
+                    desc['coarse'] += ['aware:' + oz]
+                    case.feature('coarse_window_zone_aware' + ('' if oz == g['tz'] else '_other_zone'))
                 try:
-                    tg.set_restricted_grid(None if ws is None else pd.Timestamp(ws), None if we is None else pd.Timestamp(we), cf)
+                    tg.set_restricted_grid(cs_in, ce_in, cf)
                     case.feature('coarse:' + g['freq'] + '->' + cf)
                 except ValueError as ex:
                     # a coarse interval without any fine point (window narrower than one coarse step): no grid produced
@@ -237,7 +245,7 @@ def _is_f46b(v, rec):
     # coarse restricted grid in calendar days whose window starts at a wall-clock time that is ambiguous / missing on a later day of the window (same
     # mechanism as F46 in C13): pd.date_range raises inside Timegrid.__init__
     w = v.get('window')
-    return (v.get('clause') == 'restricted.setup_works' and isinstance(w, list) and len(w) == 3 and str(w[0]).endswith('d')
+    return (v.get('clause') == 'restricted.setup_works' and isinstance(w, list) and len(w) in (3, 4) and str(w[0]).endswith('d')
             and ('AmbiguousTimeError' in str(v.get('error', '')) or 'NonExistentTimeError' in str(v.get('error', ''))))
 
 
